@@ -46,7 +46,7 @@ def fresh_dir():
     return d
 
 
-def open_writer(adapter, d):
+def open_writer(adapter, d, opt=None):
     """-> (writer, list-of-output-paths function)"""
     from flow.record import RecordWriter
     from flow.record.adapter.stream import StreamWriter
@@ -62,7 +62,7 @@ def open_writer(adapter, d):
     if adapter == "avro":
         return RecordWriter(base + ".avro")
     if adapter == "sqlite":
-        return RecordWriter("sqlite://" + base + ".sqlite")
+        return RecordWriter("sqlite://" + base + ".sqlite" + ("?" + opt if opt else ""))
     if adapter == "csvfile":
         return RecordWriter(base + ".csv")
     if adapter == "line":
@@ -207,7 +207,7 @@ def run_life(case):
     out = "open"
     try:
         try:
-            w = open_writer(adapter, d)
+            w = open_writer(adapter, d, case.get("opt"))
         except Exception as e:  # noqa: BLE001
             return {"ev": 1, "h": h, "nt": False, "out": "%s:open-raises-%s" % (adapter, type(e).__name__),
                     "viol": [("C17:life:%s:open-raises-%s" % (adapter, type(e).__name__), case, {"error": repr(e)[:200]})]}
@@ -534,6 +534,11 @@ def cases(tier, seed):
                 if "wbad" in hist and adapter not in ("stream", "stream.gz", "stream-fileobj", "sqlite", "jsonfile", "split+stream"):
                     continue  # refused writes: Avro's behaviour is C19's known finding; text writers have no notion of a refused record
                 yield {"kind": "life", "adapter": adapter, "hist": list(hist)}
+                if adapter == "sqlite" and "wbad" not in hist:
+                    # commit batches of 2 and 3 records: batch boundaries fall inside these histories
+                    yield {"kind": "life", "adapter": adapter, "hist": list(hist), "opt": "batch_size=2"}
+                    if k >= 3:
+                        yield {"kind": "life", "adapter": adapter, "hist": list(hist), "opt": "batch_size=3"}
     targets = [("x", ".records", "", ""), ("x", ".records.gz", "", ""), ("x", ".json", "jsonfile", ""), ("x.with.dots", ".records", "", ""),
                ("y", ".json", "jsonfile", "descriptors=true"), ("rel", ".jsonl", "jsonfile", ""), ("relstream", ".records", "stream", "")]
     for n, limit, slen, target, closing in itertools.product(range(0, 10), [1, 2, 3, 4, 10], [1, 2, 3], targets, ["with", "flush+close", "close"]):
